@@ -32,6 +32,9 @@ const extraPrelude = `
 (assert (forall ((a (Array Int Int)) (o Int) (n Int) (j Int) (m Int)) (! (=> (and (<= 0 j) (<= j m) (<= m n)) (= (ssub (str_of_bytes a o n) j m) (str_of_bytes a (+ o j) (- m j)))) :pattern ((ssub (str_of_bytes a o n) j m)))))
 (declare-fun bytes_of_str (Str) (Array Int Int))
 (assert (forall ((s Str) (k Int)) (! (=> (and (<= 0 k) (< k (slen s))) (= (select (bytes_of_str s) k) (sat s k))) :pattern ((select (bytes_of_str s) k)))))
+; string([]byte(s)) == s: follows from the two element laws and extensionality of Str; stated directly because
+; the extensionality witness is only produced on demand
+(assert (forall ((s Str)) (! (= (str_of_bytes (bytes_of_str s) 0 (slen s)) s) :pattern ((str_of_bytes (bytes_of_str s) 0 (slen s))))))
 (declare-fun runeat (Str Int) Int)
 (declare-fun runesz (Str Int) Int)
 (assert (forall ((s Str) (i Int)) (! (=> (and (<= 0 i) (< i (slen s))) (and (<= 1 (runesz s i)) (<= (runesz s i) 4) (<= (+ i (runesz s i)) (slen s)) (<= 0 (runeat s i)) (<= (runeat s i) 1114111)
